@@ -9,7 +9,8 @@ PID = 'C18'
 PROPS_MODULE = 'SympdeModel.Props.C18'
 RULE = ('random systems on Line/Square/Cube with 1..4 unknowns (scalar or vector, space kinds h1/hcurl/hdiv/l2/'
         'undefined), lists of 0..5 conditions, each with one of the admitted left-hand sides u, u[i], u.n (both '
-        'argument orders), grad(u).n, on a union of 1..6 faces, with numeric/symbolic right-hand sides and sometimes '
+        'argument orders), grad(u).n, the normal vector being a NormalVector of varying name (nn, n, normal, nu, N, n_Gamma), '
+        'on a union of 1..6 faces, with numeric/symbolic right-hand sides and sometimes '
         'preset position / index_component; a malformed stream (conditions on non-trial functions, 2*u, u+v, grad(u), '
         'Dn(u), traces, two normals, indexed with normal, non-condition objects, wrong container types, lhs/rhs of '
         'the wrong form class, non-function trials/tests); multi-step histories (one pool of EssentialBC objects, the first on a '
